@@ -36,8 +36,13 @@ void *tp_cur_tpt(void) { return ((void *)tpt_get_current()); }
 int g_close_unknown_passthrough;
 
 /* ---------------- log ---------------- */
-tp_rec tp_log_buf[TP_LOG_MAX];
-static atomic_uint log_idx, log_drop;
+/* Four log buffers used round-robin, one per epoch (= per tp_harness_reset): a thread that reserved a slot just before a
+ * reset and writes it just after cannot tear a record of the next epoch -- it writes into the previous buffer. The
+ * epoch lives in the upper half of log_state, the next free index in the lower half. */
+static tp_rec log_bufs[4][TP_LOG_MAX];
+tp_rec *tp_log_buf = log_bufs[0];
+static _Atomic uint64_t log_state;
+static atomic_uint log_drop;
 static atomic_uint thr_idx_next;
 static __thread uint32_t thr_idx_tls;
 
@@ -48,24 +53,27 @@ tp_thr_idx(void) {
 	return (thr_idx_tls);
 }
 
-uint32_t tp_log_count(void) { uint32_t n = atomic_load(&log_idx); return (n > TP_LOG_MAX ? TP_LOG_MAX : n); }
+uint32_t tp_log_count(void) { uint32_t n = (uint32_t)atomic_load(&log_state); return (n > TP_LOG_MAX ? TP_LOG_MAX : n); }
 uint32_t tp_log_dropped(void) { return (atomic_load(&log_drop)); }
 
 uint32_t
 tp_log(uint32_t kind, uint64_t a, uint64_t b, uint64_t c, uint64_t d) {
-	uint32_t i = atomic_fetch_add(&log_idx, 1);
+	uint64_t v = atomic_fetch_add(&log_state, 1);
+	uint32_t i = (uint32_t)v;
+	tp_rec *r;
 
 	if (i >= TP_LOG_MAX) {
 		atomic_fetch_add(&log_drop, 1);
 		return (i);
 	}
-	tp_log_buf[i].kind = kind;
-	tp_log_buf[i].thr = tp_thr_idx();
-	tp_log_buf[i].a = a;
-	tp_log_buf[i].b = b;
-	tp_log_buf[i].c = c;
-	tp_log_buf[i].d = d;
-	tp_log_buf[i].cur = (uint64_t)(uintptr_t)tp_cur_tpt();
+	r = &log_bufs[(v >> 32) & 3][i];
+	r->kind = kind;
+	r->thr = tp_thr_idx();
+	r->a = a;
+	r->b = b;
+	r->c = c;
+	r->d = d;
+	r->cur = (uint64_t)(uintptr_t)tp_cur_tpt();
 	return (i);
 }
 
@@ -522,7 +530,18 @@ tp_harness_reset(const tp_plans *plans) {
 	int i;
 
 	atomic_store(&g_armed, 0);
-	atomic_store(&log_idx, 0);
+	{
+		static uint32_t used[4];
+		uint64_t st = atomic_load(&log_state), ep = (st >> 32) + 1;
+		uint32_t n = (uint32_t)st;
+
+		used[(st >> 32) & 3] = (n > TP_LOG_MAX) ? TP_LOG_MAX : n;
+		/* what the buffer held four epochs ago is wiped: a reserved slot whose writer never finished reads as kind 0 */
+		memset(log_bufs[ep & 3], 0, (size_t)used[ep & 3] * sizeof(tp_rec));
+		used[ep & 3] = 0;
+		tp_log_buf = log_bufs[ep & 3];
+		atomic_store(&log_state, ep << 32);
+	}
 	atomic_store(&log_drop, 0);
 	for (i = 0; i < F_LAST; i ++) {
 		atomic_store(&g_calls[i], 0);
